@@ -296,14 +296,16 @@ def main() -> int:
                 "name": "sa",
                 "path": "/verif/sa",
                 "serves_properties": sorted(CLAIMS),
-                "kind_free_text": "repository-specific static analysis: ast-based loaders, .proto reader, descriptor-literal decoder, "
-                "constant evaluator, annotation-based callee resolver, statement CFG + monotone dataflow, guard truth tables",
+                "kind_free_text": "repository-specific static analysis: ast-based loader with a canonicalising normaliser (renames undone against "
+                "a baseline symbol inventory, new helpers inlined, walrus/alias/temporary/comprehension canonical forms), .proto reader, "
+                "descriptor-literal decoder, constant evaluator, annotation-based callee resolver, statement CFG + monotone and disjunctive "
+                "dataflow, guard truth tables, linear-expression abstract interpreter",
             }
         ],
         "checks": checks,
         "not_applicable": na,
         "notes": "All checks are static (family: static analysis). Known findings: /verif/known_findings.json. Self-test of the checker: "
-        f"{PY} -m sa.mutants (variants under sa/variants/).",
+        f"{PY} -m sa.mutants (variants under sa/variants/, independently seeded breaking changes under seeded/, behaviour-preserving refactorings under refactors/); the thorough tier of every check runs its share of them.",
     }
     (VERIF / "MANIFEST.json").write_text(json.dumps(manifest, indent=1) + "\n")
     return 0
